@@ -113,7 +113,7 @@ m("dir-absolute-allowed-if-double-slash", "src/dir.rs", "    if path.as_bytes().
 # ---- second round: narrower variants of mutants that the repository's own tests kill
 m("content-range-end-exclusive-large-offsets", "src/serving.rs", "                        range.start,\n                        range.end - 1,\n                        len\n                    ),", "                        range.start,\n                        if range.start > u32::MAX as u64 { range.end } else { range.end - 1 },\n                        len\n                    ),", ["C02", "C03"])
 m("exactlen-short-by-one-is-clean-end", "src/body.rs", "                if this.remaining != 0 {", "                if this.remaining > 1 {", ["C07"])
-m("exactlen-long-by-one-passed-on", "src/body.rs", "                if let Some(new_rem) = new_rem {", "                let new_rem = if new_rem.is_none() && d_len == this.remaining + 1 { Some(0) } else { new_rem };\n                if let Some(new_rem) = new_rem {", ["C07", "C01"])
+m("exactlen-long-by-one-passed-on", "src/body.rs", "                if let Some(new_rem) = new_rem {", "                let new_rem = if new_rem.is_none() && d_len == this.remaining + 1 { Some(0) } else { new_rem };\n                if let Some(new_rem) = new_rem {", ["C07"])
 m("multipart-trailer-not-counted-3-parts", "src/serving.rs", "        .checked_add(crate::as_u64(PART_TRAILER.len()))", "        .checked_add(if ranges.len() == 3 { 0 } else { crate::as_u64(PART_TRAILER.len()) })", ["C01", "C06"])
 m("multipart-threshold-quarter-big-entities", "src/serving.rs", "if matches!(est_len, Some(l) if l < len) {", "if matches!(est_len, Some(l) if l < if len > 100_000 { len / 4 } else { len }) {", ["C03"])
 m("if-range-weak-compare-when-both-weak", "src/serving.rs", "if etag::strong_eq(if_range, some_etag.as_bytes()) {", "if etag::strong_eq(if_range, some_etag.as_bytes()) || (if_range.starts_with(b\"W/\") && if_range == some_etag.as_bytes()) {", ["C05"])
@@ -130,6 +130,16 @@ m("file-chunk-not-clamped-near-boundary", "src/file.rs", "                let ch
 m("file-eof-on-boundary-ends-clean", "src/file.rs", "                        Err(e) => (\n                            Err(Box::<dyn StdError + Send + Sync + 'static>::from(e).into()),\n                            (left, inner),\n                        ),", "                        Err(e) if e.kind() == io::ErrorKind::UnexpectedEof && left.start > 0 && left.start % CHUNK_SIZE == 0 => {\n                            return None;\n                        }\n                        Err(e) => (\n                            Err(Box::<dyn StdError + Send + Sync + 'static>::from(e).into()),\n                            (left, inner),\n                        ),", ["C18"])
 m("head-get-range-for-multipart", "src/serving.rs", "                    if method == Method::HEAD {\n                        return ServeInner::Simple(res.body(Body::empty()).unwrap());\n                    }", "                    if method == Method::HEAD {\n                        drop(ent.get_range(ranges[0].clone()));\n                        return ServeInner::Simple(res.body(Body::empty()).unwrap());\n                    }", ["C15"])
 m("multipart-fuse-skipped-for-last-part", "src/serving.rs", "                        this.cur = None;\n                        this.remaining = 0;", "                        if this.state >> 1 != this.ranges.len() - 1 {\n                            this.cur = None;\n                        }\n                        this.remaining = 0;", ["C20", "C12"])
+
+# ---- third round
+m("no-wake-on-drop-when-data-queued", "src/chunker.rs", "            *writer_dropped = dropping;\n            l.waker.take()", "            *writer_dropped = dropping;\n            if dropping && !ready.is_empty() { None } else { l.waker.take() }", ["C10"])
+m("gzip-flush-skipped-for-tiny-input", "src/gzip.rs", "            Inner::Gzipped(ref mut w) => w.flush(),", "            Inner::Gzipped(ref mut w) => if w.total_in() > 0 && w.total_in() < 4 { Ok(()) } else { w.flush() },", ["C09"])
+m("gzip-abort-only-marks-dead", "src/gzip.rs", "            Inner::Gzipped(ref mut g) => g.get_mut().abort(error),", "            Inner::Gzipped(ref mut g) => if g.total_in() == 0 { drop(error) } else { g.get_mut().abort(error) },", ["C11"])
+m("file-eof-exactly-on-boundary-ends-clean", "src/file.rs", "                if left.start == left.end {\n                    return None;\n                }", "                if left.start == left.end {\n                    return None;\n                }\n                if left.start > 0 && left.start % CHUNK_SIZE == 0 && inner.f.metadata().map_or(false, |m| m.len() == left.start) {\n                    return None;\n                }", ["C18"])
+m("etag-weak-eq-strips-only-one-side", "src/etag.rs", "    let b = b.strip_prefix(b\"W/\").unwrap_or(b);\n    a == b", "    let b = if a.len() > 12 { b } else { b.strip_prefix(b\"W/\").unwrap_or(b) };\n    a == b", ["C04"])
+m("vary-only-when-accept-encoding-present", "src/lib.rs", "        should_gzip: should_gzip(req.headers()),", "        should_gzip: should_gzip(req.headers()) && req.headers().get(header::ACCEPT_ENCODING).map_or(false, |v| v.len() < 40),", ["C17"])
+m("dir-gz-when-star-only", "src/dir.rs", "let should_gzip = self.auto_gzip && super::should_gzip(req_hdrs);", "let should_gzip = self.auto_gzip && super::should_gzip(req_hdrs) && req_hdrs.get(\"accept-encoding\").map_or(false, |v| v.as_bytes() != b\"*\");", ["C19"])
+m("serve-last-modified-plus-one-on-subsecond", "src/serving.rs", "        Ok(d) => SystemTime::UNIX_EPOCH + std::time::Duration::from_secs(d.as_secs()),", "        Ok(d) => SystemTime::UNIX_EPOCH + std::time::Duration::from_secs(d.as_secs() + (d.subsec_nanos() >= 999_999_999) as u64),", ["C14", "C04"])
 
 def sh(cmd, cwd=None, timeout=None, env=None):
     e = dict(os.environ); e["CARGO_NET_OFFLINE"] = "true"
